@@ -157,6 +157,26 @@ def check_translate(rep: Report, prog: Program, resolver: Resolver) -> None:
                       f"point {zero.mag.rat!r} (sign or direction swapped)", fi.where(nodes.get(("_offsets",) + sd)))
 
 
+def plan_applier(prog: Program, resolver: Optional[Resolver] = None) -> Tuple["FuncInfo", Optional[str]]:
+    """The function that walks the plan and updates the magnitude: convert() itself, or a
+    helper it delegates to (-> (function, name of the accumulated variable or None))."""
+    from ..model import FuncInfo  # noqa: F401
+    conv = prog.func("conversions.convert")
+
+    def has_plan_loop(fn: ast.AST) -> bool:
+        return any(isinstance(n, ast.For) and isinstance(n.target, ast.Tuple) and len(n.target.elts) == 3 for n in ast.walk(fn))
+    if has_plan_loop(conv.node):
+        return conv, None
+    for n in ast.walk(conv.node):
+        if isinstance(n, ast.Call) and isinstance(n.func, ast.Name):
+            q = prog.modules["conversions"].functions.get(n.func.id)
+            if q and has_plan_loop(prog.functions[q].node):
+                h = prog.functions[q]
+                rets = [r for r in ast.walk(h.node) if isinstance(r, ast.Return) and isinstance(r.value, ast.Name)]
+                return h, (rets[0].value.id if rets else None)  # type: ignore[union-attr]
+    raise AnalysisError("conversions.convert: no loop over the plan found, neither in convert nor in a helper it calls")
+
+
 def check_convert(rep: Report, prog: Program) -> None:
     fi = prog.func("conversions.convert")
     fn = fi.node
@@ -166,6 +186,7 @@ def check_convert(rep: Report, prog: Program) -> None:
     rets = [n for n in ast.walk(fn) if isinstance(n, ast.Return)]
     if not rets:
         raise AnalysisError("conversions.convert has no return")
+    applier, acc_name = plan_applier(prog)
     accs: Set[str] = set()
     for i, r in enumerate(rets):
         v = r.value
@@ -176,6 +197,12 @@ def check_convert(rep: Report, prog: Program) -> None:
                   "requested unit unmodified", fi.where(r))
         if ok and isinstance(v.args[0], ast.Name):  # type: ignore[union-attr]
             accs.add(v.args[0].id)  # type: ignore[union-attr]
+    if applier is not fi:
+        # the plan is applied by a helper: analyse its body, with its accumulated parameter
+        fi = applier
+        fn = applier.node
+        defs = defs_of(fn)
+        accs = {acc_name} if acc_name else set()
     mag_names: Set[str] = set(accs)
     # names holding a magnitude: anything assigned from `<x>.magnitude`
     for nm, ds in defs.items():
@@ -197,6 +224,8 @@ def check_convert(rep: Report, prog: Program) -> None:
                 if isinstance(v, ast.Attribute) and v.attr == "magnitude":
                     rep.ok("R05.2", key, note="initial value")
                     continue
+                if applier is not prog.func("conversions.convert") and isinstance(v, ast.Name) and v.id == acc:
+                    continue
                 coef = None
                 if isinstance(v, ast.Call) and isinstance(v.func, ast.Name) and v.func.id in ("_mul", "_add") and len(v.args) == 2:
                     a0, a1 = v.args
@@ -214,7 +243,7 @@ def check_convert(rep: Report, prog: Program) -> None:
                           f"`{ast.unparse(n)}` is not an affine update magnitude*c / magnitude+c with c independent of the "
                           "magnitude: conversion would not be a linear scaling for fixed units", fi.where(n))
     if n_updates < 2:
-        raise AnalysisError("conversions.convert: fewer than two affine updates of the accumulated magnitude found")
+        raise AnalysisError(f"{fi.qual}: fewer than two affine updates of the accumulated magnitude found")
     for n in ast.walk(fn):
         test = None
         if isinstance(n, (ast.If, ast.While, ast.IfExp)):
@@ -229,7 +258,7 @@ def check_convert(rep: Report, prog: Program) -> None:
     # the plan is a function of the two units only
     plans = [n for n in ast.walk(fn) if isinstance(n, ast.Call) and isinstance(n.func, ast.Name) and n.func.id == "_plan_conversion"]
     if not plans:
-        raise AnalysisError("conversions.convert does not call _plan_conversion")
+        raise AnalysisError(f"{fi.qual} does not call _plan_conversion")
     for c in plans:
         bad = any(depends_on_magnitude(a) for a in c.args)
         rep.check("R05.2", "conversions.convert:plan-arguments", not bad and len(c.args) == 2,
